@@ -697,6 +697,265 @@ Proof.
   unfold nranks in *. cbn [s_root s_ranks]. rewrite Hlen. repeat split; assumption.
 Qed.
 
+(* ---------- fiber-valued mutators: loading a plain tree ---------- *)
+Lemma load_node_es lvl es nx rk :
+  load lvl (Node es) nx rk =
+  let '(es', nx', rk') := load_es lvl es (S nx) (app_rank lvl nx rk) in
+  (INode nx (Some lvl) es', nx', rk').
+Proof. reflexivity. Qed.
+
+Lemma load_len : forall t lvl nx rk, length (snd (load lvl t nx rk)) = length rk.
+Proof.
+  induction t as [v|es IH] using tree_ind'; intros lvl nx rk; [reflexivity|].
+  rewrite load_node_es.
+  assert (H : forall nx rk, length (snd (load_es lvl es nx rk)) = length rk).
+  { clear nx rk. induction es as [|[c t] es IHes]; intros nx rk; [reflexivity|].
+    inversion IH as [|? ? Ht Hes]; subst. cbn [snd] in Ht. cbn [load_es].
+    specialize (Ht (S lvl) nx rk). destruct (load (S lvl) t nx rk) as [[t1 nx1] rk1]. cbn [snd] in Ht.
+    specialize (IHes Hes nx1 rk1). destruct (load_es lvl es nx1 rk1) as [[l2 nx2] rk2].
+    cbn [snd] in *. congruence. }
+  specialize (H (S nx) (app_rank lvl nx rk)).
+  destruct (load_es lvl es (S nx) (app_rank lvl nx rk)) as [[es' nx'] rk'].
+  cbn [snd] in *. rewrite H. apply app_rank_length.
+Qed.
+
+Lemma load_es_len lvl : forall l nx rk, length (snd (load_es lvl l nx rk)) = length rk.
+Proof.
+  induction l as [|[c t] l IH]; intros nx rk; [reflexivity|]. cbn [load_es].
+  pose proof (load_len t (S lvl) nx rk) as Ht.
+  destruct (load (S lvl) t nx rk) as [[t1 nx1] rk1]. cbn [snd] in Ht.
+  specialize (IH nx1 rk1). destruct (load_es lvl l nx1 rk1) as [[l2 nx2] rk2].
+  cbn [snd] in *. congruence.
+Qed.
+
+Lemma load_wf n : forall t lvl nx rk,
+  (lvl <= n)%nat -> plain_wf (n - lvl) t = true -> wf_i n lvl (fst (fst (load lvl t nx rk))) = true.
+Proof.
+  induction t as [v|es IH] using tree_ind'; intros lvl nx rk Hl Hp.
+  - cbn [plain_wf] in Hp. apply Nat.eqb_eq in Hp. cbn [load fst wf_i]. apply Nat.eqb_eq. lia.
+  - cbn [plain_wf] in Hp. destruct (n - lvl)%nat as [|k] eqn:Ek; [discriminate|].
+    apply andb_true_iff in Hp. destruct Hp as [Hs Hk].
+    assert (Hk' : k = (n - S lvl)%nat) by lia. subst k.
+    rewrite load_node_es.
+    assert (H : forall nx rk,
+               map fst (fst (fst (load_es lvl es nx rk))) = map fst es
+               /\ forallb (fun ct => wf_i n (S lvl) (snd ct)) (fst (fst (load_es lvl es nx rk))) = true).
+    { clear nx rk Hs. induction es as [|[c t] es IHes]; intros nx rk; [split; reflexivity|].
+      inversion IH as [|? ? Ht Hes]; subst. cbn [snd] in Ht. cbn [forallb snd] in Hk.
+      apply andb_true_iff in Hk. destruct Hk as [Hk1 Hk2]. cbn [load_es].
+      assert (Hl' : (S lvl <= n)%nat) by lia.
+      specialize (Ht (S lvl) nx rk Hl' Hk1). destruct (load (S lvl) t nx rk) as [[t1 nx1] rk1].
+      cbn [fst] in Ht. destruct (IHes Hes Hk2 nx1 rk1) as [H1 H2].
+      destruct (load_es lvl es nx1 rk1) as [[l2 nx2] rk2]. cbn [fst snd map forallb] in *.
+      rewrite H1, H2, Ht. split; reflexivity. }
+    destruct (H (S nx) (app_rank lvl nx rk)) as [H1 H2].
+    destruct (load_es lvl es (S nx) (app_rank lvl nx rk)) as [[es' nx'] rk']. cbn [fst] in *.
+    rewrite wf_i_node. unfold wf_fib. rewrite H1, Hs, H2.
+    assert (Hlt : Nat.ltb lvl n = true) by (apply Nat.ltb_lt; lia). rewrite Hlt. reflexivity.
+Qed.
+
+Lemma load_es_wf n lvl : forall l nx rk,
+  (S lvl <= n)%nat -> forallb (fun ct => plain_wf (n - S lvl) (snd ct)) l = true ->
+  map fst (fst (fst (load_es lvl l nx rk))) = map fst l
+  /\ forallb (fun ct => wf_i n (S lvl) (snd ct)) (fst (fst (load_es lvl l nx rk))) = true.
+Proof.
+  induction l as [|[c t] l IH]; intros nx rk Hl Hk; [split; reflexivity|].
+  cbn [forallb snd] in Hk. apply andb_true_iff in Hk. destruct Hk as [Hk1 Hk2]. cbn [load_es].
+  pose proof (load_wf n t (S lvl) nx rk Hl Hk1) as Ht.
+  destruct (load (S lvl) t nx rk) as [[t1 nx1] rk1]. cbn [fst] in Ht.
+  destruct (IH nx1 rk1 Hl Hk2) as [H1 H2].
+  destruct (load_es lvl l nx1 rk1) as [[l2 nx2] rk2]. cbn [fst snd map forallb] in *.
+  rewrite H1, H2, Ht. split; reflexivity.
+Qed.
+
+Lemma ssorted_app a : forall b,
+  ssorted a = true -> ssorted b = true ->
+  match rev a, b with m :: _, c0 :: _ => m < c0 | _, _ => True end ->
+  ssorted (a ++ b) = true.
+Proof.
+  induction a as [|x a IH]; intros b Ha Hb Hl; [exact Hb|].
+  rewrite ssorted_cons in Ha. apply andb_true_iff in Ha. destruct Ha as [Hh Ha].
+  cbn [app]. rewrite ssorted_cons. cbn [rev] in Hl.
+  destruct a as [|y a'].
+  - cbn [app]. rewrite Hb, andb_true_r. cbn [rev app] in Hl. destruct b as [|c0 b]; [reflexivity|].
+    cbn [hd_gt]. lia.
+  - rewrite IH; [|exact Ha|exact Hb|].
+    + rewrite andb_true_r. exact Hh.
+    + destruct (rev (y :: a')) eqn:Hr; [exact I|]. cbn [app] in Hl. exact Hl.
+Qed.
+
+Lemma drop_dead_length dead rk : length (drop_dead dead rk) = length rk.
+Proof. unfold drop_dead. apply map_length. Qed.
+
+(* what `for c, p in other` offers, recursively *)
+Definition prune_go (d : Z) : fib -> fib :=
+  fix go (l : fib) : fib :=
+    match l with
+    | [] => []
+    | (c, t') :: l' => if is_empty d t' then go l' else (c, prune d t') :: go l'
+    end.
+
+Lemma prune_node d es : prune d (Node es) = Node (prune_go d es).
+Proof. reflexivity. Qed.
+
+Lemma prune_go_gt d x : forall l,
+  Forall (fun y => x < y) (map fst l) -> Forall (fun y => x < y) (map fst (prune_go d l)).
+Proof.
+  induction l as [|[c t] l IH]; intros H; [constructor|]. cbn [map fst] in H.
+  inversion H as [|? ? Hc Hl]; subst. cbn [prune_go].
+  destruct (is_empty d t); [apply IH; exact Hl|]. cbn [map fst]. constructor; [exact Hc|apply IH; exact Hl].
+Qed.
+
+Lemma Forall_hd_gt x l : Forall (fun y => x < y) l -> hd_gt x l = true.
+Proof. destruct l as [|y l]; [reflexivity|]. intros H. inversion H; subst. cbn [hd_gt]. lia. Qed.
+
+Lemma prune_go_sorted d : forall l, ssorted (map fst l) = true -> ssorted (map fst (prune_go d l)) = true.
+Proof.
+  induction l as [|[c t] l IH]; intros Hs; [reflexivity|]. cbn [map fst] in Hs.
+  rewrite ssorted_cons in Hs. apply andb_true_iff in Hs. destruct Hs as [Hh Hs]. cbn [prune_go].
+  destruct (is_empty d t); [apply IH; exact Hs|]. cbn [map fst]. rewrite ssorted_cons, (IH Hs), andb_true_r.
+  apply Forall_hd_gt. apply prune_go_gt. apply ssorted_all_gt; assumption.
+Qed.
+
+Lemma prune_wf d : forall t k, plain_wf k t = true -> plain_wf k (prune d t) = true.
+Proof.
+  induction t as [v|es IH] using tree_ind'; intros k Hp; [exact Hp|].
+  rewrite prune_node. cbn [plain_wf] in *. destruct k as [|k]; [discriminate|].
+  apply andb_true_iff in Hp. destruct Hp as [Hs Hk]. rewrite (prune_go_sorted d es Hs). cbn [andb].
+  clear Hs. induction es as [|[c t] es IHes]; [reflexivity|].
+  inversion IH as [|? ? Ht Hes]; subst. cbn [snd] in Ht. cbn [forallb snd] in Hk.
+  apply andb_true_iff in Hk. destruct Hk as [Hk1 Hk2]. cbn [prune_go].
+  destruct (is_empty d t); [apply IHes; assumption|].
+  cbn [forallb snd]. rewrite (Ht k Hk1). cbn [andb]. apply IHes; assumption.
+Qed.
+
+(* ---------- the four updates keep a fiber well-formed ---------- *)
+Lemma append_fib_wf n c t lvl e nx rk :
+  (S lvl < n)%nat -> plain_wf (n - S lvl) t = true -> wf_fib n lvl e = true ->
+  (match last_coord e with Some m => m <? c | None => true end) = true ->
+  wf_fib n lvl (fst (fst (append_fib c t lvl e nx rk))) = true.
+Proof.
+  intros Hl Hp Hwf Ho. unfold append_fib.
+  assert (Hl' : (S lvl <= n)%nat) by lia.
+  pose proof (load_wf n t (S lvl) nx rk Hl' Hp) as Ht.
+  destruct (load (S lvl) t nx rk) as [[t1 nx1] rk1]. cbn [fst] in *.
+  unfold wf_fib in *. apply andb_true_iff in Hwf. destruct Hwf as [Hs Hk].
+  pose proof (rev_map_fst_last e) as Hlast.
+  assert (Hlt : match rev (map fst e) with [] => True | m :: _ => m < c end).
+  { destruct (rev (map fst e)) as [|m r]; [exact I|]. rewrite Hlast in Ho. lia. }
+  rewrite map_app. cbn [map fst]. rewrite (ssorted_snoc _ c Hs Hlt). cbn [andb].
+  rewrite forallb_app, Hk. cbn [forallb snd]. rewrite Ht. reflexivity.
+Qed.
+
+Lemma extend_fib_wf n l lvl e nx rk :
+  (lvl < n)%nat -> plain_wf (n - lvl) (Node l) = true -> wf_fib n lvl e = true ->
+  (match last_coord e, l with Some m, (c0, _) :: _ => m <? c0 | _, _ => true end) = true ->
+  wf_fib n lvl (fst (fst (extend_fib l lvl e nx rk))) = true.
+Proof.
+  intros Hl Hp Hwf Ho. unfold extend_fib. cbn [plain_wf] in Hp.
+  destruct (n - lvl)%nat as [|k] eqn:Ek; [discriminate|].
+  apply andb_true_iff in Hp. destruct Hp as [Hsl Hkl].
+  assert (Hk' : k = (n - S lvl)%nat) by lia. subst k.
+  assert (Hl' : (S lvl <= n)%nat) by lia.
+  destruct (load_es_wf n lvl l nx rk Hl' Hkl) as [H1 H2].
+  destruct (load_es lvl l nx rk) as [[l1 nx1] rk1]. cbn [fst] in *.
+  unfold wf_fib in *. apply andb_true_iff in Hwf. destruct Hwf as [Hs Hk].
+  rewrite map_app, forallb_app, Hk, H2, H1. rewrite andb_true_r.
+  apply ssorted_app; [exact Hs|exact Hsl|].
+  pose proof (rev_map_fst_last e) as Hlast.
+  destruct (rev (map fst e)) as [|m r]; [exact I|]. rewrite Hlast in Ho.
+  destruct l as [|[c0 t0] l0]; [exact I|]. cbn [map fst]. lia.
+Qed.
+
+Lemma setitem_fib_wf n i t lvl e nx rk :
+  (S lvl < n)%nat -> plain_wf (n - S lvl) t = true -> wf_fib n lvl e = true ->
+  wf_fib n lvl (fst (fst (setitem_fib i t lvl e nx rk))) = true.
+Proof.
+  intros Hl Hp Hwf. unfold setitem_fib.
+  destruct (nth_error e i) as [[c0 old]|] eqn:Hn; [|exact Hwf].
+  assert (Hl' : (S lvl <= n)%nat) by lia.
+  pose proof (load_wf n t (S lvl) nx (drop_dead (all_ids old) rk) Hl' Hp) as Ht.
+  destruct (load (S lvl) t nx (drop_dead (all_ids old) rk)) as [[t1 nx1] rk1]. cbn [fst] in *.
+  eapply wf_fib_set_nth; [exact Hwf|exact Hn|exact Ht].
+Qed.
+
+Lemma assign_fib_wf n d l0 lvl e nx rk :
+  (lvl < n)%nat -> plain_wf (n - lvl) (Node l0) = true ->
+  wf_fib n lvl (fst (fst (assign_fib (prune_go d l0) lvl e nx rk))) = true.
+Proof.
+  intros Hl Hp. unfold assign_fib.
+  pose proof (prune_wf d (Node l0) _ Hp) as Hp'. rewrite prune_node in Hp'. cbn [plain_wf] in Hp'.
+  destruct (n - lvl)%nat as [|k] eqn:Ek; [discriminate|].
+  apply andb_true_iff in Hp'. destruct Hp' as [Hsl Hkl].
+  assert (Hk' : k = (n - S lvl)%nat) by lia. subst k.
+  assert (Hl' : (S lvl <= n)%nat) by lia.
+  destruct (load_es_wf n lvl (prune_go d l0) nx (drop_dead (all_ids_fib e) rk) Hl' Hkl) as [H1 H2].
+  destruct (load_es lvl (prune_go d l0) nx (drop_dead (all_ids_fib e) rk)) as [[l1 nx1] rk1].
+  cbn [fst] in *. unfold wf_fib. rewrite H1, Hsl, H2. reflexivity.
+Qed.
+
+Lemma append_fib_len c t lvl e nx rk : length (snd (append_fib c t lvl e nx rk)) = length rk.
+Proof.
+  unfold append_fib. pose proof (load_len t (S lvl) nx rk) as H.
+  destruct (load (S lvl) t nx rk) as [[t1 nx1] rk1]. exact H.
+Qed.
+
+Lemma extend_fib_len l lvl e nx rk : length (snd (extend_fib l lvl e nx rk)) = length rk.
+Proof.
+  unfold extend_fib. pose proof (load_es_len lvl l nx rk) as H.
+  destruct (load_es lvl l nx rk) as [[l1 nx1] rk1]. exact H.
+Qed.
+
+Lemma setitem_fib_len i t lvl e nx rk : length (snd (setitem_fib i t lvl e nx rk)) = length rk.
+Proof.
+  unfold setitem_fib. destruct (nth_error e i) as [[c0 old]|]; [|reflexivity].
+  pose proof (load_len t (S lvl) nx (drop_dead (all_ids old) rk)) as H.
+  destruct (load (S lvl) t nx (drop_dead (all_ids old) rk)) as [[t1 nx1] rk1].
+  cbn [snd] in *. rewrite H. apply drop_dead_length.
+Qed.
+
+Lemma assign_fib_len l lvl e nx rk : length (snd (assign_fib l lvl e nx rk)) = length rk.
+Proof. unfold assign_fib. rewrite load_es_len. apply drop_dead_length. Qed.
+
+(* f need only preserve well-formedness at the fiber the path ends at *)
+Lemma at_path_st_wf_at n f : forall path lvl L es nx rk r,
+  L = (lvl + length path)%nat ->
+  (forall e nx rk, (L < n)%nat -> wf_fib n L e = true -> fiber_at path es = Some e ->
+                   wf_fib n L (fst (fst (f L e nx rk))) = true) ->
+  (lvl < n)%nat -> wf_fib n lvl es = true -> at_path_st path f lvl es nx rk = Some r ->
+  wf_fib n lvl (fst (fst r)) = true.
+Proof.
+  induction path as [|c path IH]; intros lvl L es nx rk r HL Hf Hlvl Hwf Hat.
+  - cbn [at_path_st] in Hat. inversion Hat; subst r. cbn [length] in HL. rewrite Nat.add_0_r in HL.
+    subst L. apply Hf; [exact Hlvl|exact Hwf|reflexivity].
+  - cbn [at_path_st] in Hat. cbn [fiber_at] in Hf.
+    destruct (nth_error es (bisect c (map fst es))) as [[c' [v|id ow e1]]|] eqn:Hn; try discriminate.
+    destruct (c' =? c) eqn:Hc; [|discriminate]. apply Z.eqb_eq in Hc. subst c'.
+    destruct (at_path_st path f (S lvl) e1 nx rk) as [[[e2 nx'] rk']|] eqn:Hrec; [|discriminate].
+    inversion Hat; subst r. clear Hat. cbn [fst].
+    destruct (wf_fib_child n lvl es _ c id ow e1 Hwf Hn) as [Hlt Hw1].
+    eapply wf_fib_set_nth; [exact Hwf|exact Hn|].
+    rewrite wf_i_node. apply Nat.ltb_lt in Hlt. rewrite Hlt. cbn [andb].
+    apply Nat.ltb_lt in Hlt.
+    apply (IH (S lvl) L e1 nx rk (e2, nx', rk')); [cbn [length] in HL; lia|exact Hf|exact Hlt|exact Hw1|exact Hrec].
+Qed.
+
+Lemma at_path_st_wf_st_at s path f r :
+  wf_st s ->
+  (forall e nx rk, (length path < nranks s)%nat -> wf_fib (nranks s) (length path) e = true ->
+                   fiber_at path (root_es s) = Some e ->
+                   wf_fib (nranks s) (length path) (fst (fst (f (length path) e nx rk))) = true) ->
+  (forall lvl e nx rk, length (snd (f lvl e nx rk)) = length rk) ->
+  at_path_st path f O (root_es s) (s_next s) (s_ranks s) = Some r ->
+  wf_st (with_root s (fst (fst r)) (snd (fst r)) (snd r)).
+Proof.
+  intros Hs Hf Hlen Hat.
+  apply wf_st_with_root; [exact Hs| |].
+  - apply (at_path_st_rk_length f Hlen _ _ _ _ _ _ Hat).
+  - destruct Hs as (id & ow & es & Hr & Hn & Hw). rewrite (root_es_of s id ow es Hr) in *.
+    eapply (at_path_st_wf_at (nranks s) f path O (length path)); try eassumption. reflexivity.
+Qed.
+
 Theorem step_wf s o : wf_st s -> wf_st (fst (step s o)).
 Proof.
   intros Hs. destruct o; cbn [Store.step].
@@ -794,6 +1053,55 @@ Proof.
     + apply get_ref_single_len.
   - (* OGetD *)
     destruct (Nat.leb (length pt) (nranks s) && negb (Nat.eqb (length pt) 0)); exact Hs.
+  - (* OAppendFib *)
+    destruct (Nat.ltb (S (length path)) (nranks s) && plain_wf (nranks s - S (length path)) t) eqn:Hg;
+      [|exact Hs].
+    apply andb_true_iff in Hg. destruct Hg as [Hlt Hp]. apply Nat.ltb_lt in Hlt.
+    destruct (fiber_at path (root_es s)) as [e|] eqn:Hfa; [|exact Hs].
+    destruct (match last_coord e with Some m => m <? c | None => true end) eqn:Ho; [|exact Hs].
+    destruct (at_path_st path (append_fib c t) O (root_es s) (s_next s) (s_ranks s))
+      as [[[es' nx] rk]|] eqn:Hat; [|exact Hs].
+    cbn [fst]. refine (at_path_st_wf_st_at s path _ (es', nx, rk) Hs _ _ Hat).
+    + intros e0 nx0 rk0 _ Hw0 Hf0. rewrite Hfa in Hf0. inversion Hf0; subst e0. apply append_fib_wf; assumption.
+    + intros lvl e0 nx0 rk0. apply append_fib_len.
+  - (* OExtend *)
+    destruct t as [v|l]; [exact Hs|].
+    destruct (Nat.ltb (length path) (nranks s) && plain_wf (nranks s - length path) (Node l)) eqn:Hg;
+      [|exact Hs].
+    apply andb_true_iff in Hg. destruct Hg as [Hlt Hp]. apply Nat.ltb_lt in Hlt.
+    destruct (fiber_at path (root_es s)) as [e|] eqn:Hfa; [|exact Hs].
+    destruct (is_empty (s_d s) (Node l)); [exact Hs|].
+    destruct (match last_coord e, l with Some m, (c0, _) :: _ => m <? c0 | _, _ => true end) eqn:Ho;
+      [|exact Hs].
+    destruct (at_path_st path (extend_fib l) O (root_es s) (s_next s) (s_ranks s))
+      as [[[es' nx] rk]|] eqn:Hat; [|exact Hs].
+    cbn [fst]. refine (at_path_st_wf_st_at s path _ (es', nx, rk) Hs _ _ Hat).
+    + intros e0 nx0 rk0 _ Hw0 Hf0. rewrite Hfa in Hf0. inversion Hf0; subst e0. apply extend_fib_wf; assumption.
+    + intros lvl e0 nx0 rk0. apply extend_fib_len.
+  - (* OSetItemFib *)
+    destruct (Nat.ltb (S (length path)) (nranks s) && plain_wf (nranks s - S (length path)) t) eqn:Hg;
+      [|exact Hs].
+    apply andb_true_iff in Hg. destruct Hg as [Hlt Hp]. apply Nat.ltb_lt in Hlt.
+    destruct (fiber_at path (root_es s)) as [e|] eqn:Hfa; [|exact Hs].
+    cbv zeta.
+    destruct (((if pos <? 0 then pos + Z.of_nat (length e) else pos) <? 0)
+              || (Z.of_nat (length e) <=? (if pos <? 0 then pos + Z.of_nat (length e) else pos)));
+      [exact Hs|].
+    destruct (at_path_st path _ O (root_es s) (s_next s) (s_ranks s))
+      as [[[es' nx] rk]|] eqn:Hat; [|exact Hs].
+    cbn [fst]. refine (at_path_st_wf_st_at s path _ (es', nx, rk) Hs _ _ Hat).
+    + intros e0 nx0 rk0 _ Hw0 _. apply setitem_fib_wf; assumption.
+    + intros lvl e0 nx0 rk0. apply setitem_fib_len.
+  - (* OAssignFib *)
+    destruct t as [v|l0]; [exact Hs|]. rewrite prune_node.
+    destruct (Nat.ltb (length path) (nranks s) && plain_wf (nranks s - length path) (Node l0)) eqn:Hg;
+      [|exact Hs].
+    apply andb_true_iff in Hg. destruct Hg as [Hlt Hp]. apply Nat.ltb_lt in Hlt.
+    destruct (at_path_st path _ O (root_es s) (s_next s) (s_ranks s))
+      as [[[es' nx] rk]|] eqn:Hat; [|exact Hs].
+    cbn [fst]. refine (at_path_st_wf_st_at s path _ (es', nx, rk) Hs _ _ Hat).
+    + intros e0 nx0 rk0 Hl0 _ _. apply assign_fib_wf; assumption.
+    + intros lvl e0 nx0 rk0. apply assign_fib_len.
 Qed.
 
 (* a refused operation (or an ill-addressed one) leaves the state exactly as it was *)
@@ -865,4 +1173,36 @@ Proof.
       [|reflexivity].
     cbn [snd] in H. destruct H; discriminate.
   - destruct (Nat.leb (length pt) (nranks s) && negb (Nat.eqb (length pt) 0)); reflexivity.
+  - destruct (Nat.ltb (S (length path)) (nranks s) && plain_wf (nranks s - S (length path)) t);
+      [|reflexivity].
+    destruct (fiber_at path (root_es s)) as [e|]; [|reflexivity].
+    destruct (match last_coord e with Some m => m <? c | None => true end); [|reflexivity].
+    destruct (at_path_st path _ O (root_es s) (s_next s) (s_ranks s)) as [[[es' nx] rk]|];
+      [|reflexivity].
+    cbn [snd] in H. destruct H; discriminate.
+  - destruct t as [v|l]; [reflexivity|].
+    destruct (Nat.ltb (length path) (nranks s) && plain_wf (nranks s - length path) (Node l));
+      [|reflexivity].
+    destruct (fiber_at path (root_es s)) as [e|]; [|reflexivity].
+    destruct (is_empty (s_d s) (Node l)); [reflexivity|].
+    destruct (match last_coord e, l with Some m, (c0, _) :: _ => m <? c0 | _, _ => true end);
+      [|reflexivity].
+    destruct (at_path_st path _ O (root_es s) (s_next s) (s_ranks s)) as [[[es' nx] rk]|];
+      [|reflexivity].
+    cbn [snd] in H. destruct H; discriminate.
+  - destruct (Nat.ltb (S (length path)) (nranks s) && plain_wf (nranks s - S (length path)) t);
+      [|reflexivity].
+    destruct (fiber_at path (root_es s)) as [e|]; [|reflexivity]. cbv zeta in *.
+    destruct (((if pos <? 0 then pos + Z.of_nat (length e) else pos) <? 0)
+              || (Z.of_nat (length e) <=? (if pos <? 0 then pos + Z.of_nat (length e) else pos)));
+      [reflexivity|].
+    destruct (at_path_st path _ O (root_es s) (s_next s) (s_ranks s)) as [[[es' nx] rk]|];
+      [|reflexivity].
+    cbn [snd] in H. destruct H; discriminate.
+  - destruct (prune (s_d s) t) as [v|l]; [reflexivity|].
+    destruct (Nat.ltb (length path) (nranks s) && plain_wf (nranks s - length path) t);
+      [|reflexivity].
+    destruct (at_path_st path _ O (root_es s) (s_next s) (s_ranks s)) as [[[es' nx] rk]|];
+      [|reflexivity].
+    cbn [snd] in H. destruct H; discriminate.
 Qed.
